@@ -255,6 +255,8 @@ FirstRejectionWins ==                                                           
 AtMostOnce  == calls.h + calls.u <= 1                                            \* C07
 \* C15: once a complete request has been received the timer can no longer produce a response or a close
 TimeoutHarmless == [][(timer = "armed" /\ timer' = "fired" /\ complete) => (wire' = wire /\ tp' = tp)]_vars
+\* C04: in particular the timer never pre-empts a refusal: the first rejecting component's response is what the client receives
+RefusalNotPreempted == [][(timer = "armed" /\ timer' = "fired" /\ complete /\ ~ChainAllowed) => (wire' = wire /\ tp' = tp)]_vars
 \* C15: a silent peer is always answered 40 and closed when the timer fires
 TimeoutAnswers == [][(timer = "armed" /\ timer' = "fired" /\ ~complete /\ tp = "open")
                         => (Len(wire') = 1 /\ wire'[1].st = 40 /\ tp' = "closing")]_vars
